@@ -31,6 +31,23 @@ _DRV_ASSUME = [
     'only C/POSIX locales exist in this image: locale faults are not injected',
 ]
 
+_IO_ASSUME = [
+    'the storage between writer and reader is the simulated disk (a private tmpfs directory plus the libc shim); '
+    'faults are those of the fault plan (open/fstat/read/mmap/close, fopen/fread/fwrite/fclose), not real device errors',
+    'allocation cap: a single allocation above 256 MiB throws std::bad_alloc instead of exhausting the machine '
+    '(hostile counts then surface as bad_alloc, which the oracles accept)',
+    'trusted base: the generator IR and its own text/binary NL emitter (sim/iosim/nlgen.cc), the recording handlers '
+    '(sim/iosim/nlrec.h, solread.cc), the independent operator table (sim/iosim/nlops.h), the own .sol emitters '
+    '(sim/iosim/solgen.cc; the text one is cross-checked against the real writer on every generated scenario)',
+    'inputs are bounded: models <= 8 variables / 6 algebraic + 3 logical constraints / 3 objectives, expression depth <= 4, '
+    'files <= ~16 KiB (page-multiple family up to 3 pages); deep-recursion stack exhaustion on megabyte inputs is not explored',
+    'files that change while being read (size reported by fstat differs from the bytes delivered) are a separate batch judged '
+    'only for "terminates without memory error"; size lies that would make the kernel raise SIGBUS/SEGV on the mapping are not generated',
+    'UBSan prints to the worker\'s stderr (it ignores log_path in this toolchain), so iosim does not capture fd 2 during runs',
+    'only C/POSIX locales exist in this image: locale faults are not injected',
+]
+
+
 PROPS = {
     'C15': dict(
         engine='drvsim', level='exploration',
@@ -109,3 +126,63 @@ PROPS = {
                                    'link node class names: src_vars()/src_cons()/src_objs()/dest_vars()/dest_objs()/dest_cons(g) or a CON_TYPE; dest_cons(g) ranges are not bounded by the oracle'],
     ),
 }
+
+PROPS_IOSIM = {
+    'C02': dict(
+        engine='iosim', level='exploration',
+        quick=dict(count=320000), thorough=dict(budget_s=540),
+        shrink_paths=[['damage'], ['faults'], ['handlers'], ['simfile', 'chunks']],
+        rule='scenario = NL bytes from the structure-aware generator (text / binary / byte-swapped binary, padded below/at/above a page '
+             'multiple half of the time) + label {valid 15%, damaged 37% (truncate at header/number/field/line/page boundary, torn tail, '
+             'flip/set byte, zeroed block, duplicated block), hostile 33% (one structural field - header count, index, opcode, arity, '
+             'string length, suffix kind - rewritten to -1/0/n/n+1/INT_MAX/2^31/2^32-1 ...), shrink 15% (file shorter than fstat says; '
+             'verdict only "terminates")} + reader path {ReadNLString | NLFileReader<SimFile> with short reads | ReadNLFile through the shim '
+             'with open/fstat/read/mmap/close faults} x flags {0, READ_BOUNDS_FIRST} x handlers {recording checker, mp::Problem, NullNLHandler}. '
+             'Every scenario first reads the bytes in memory (exact-size heap buffer) and, when no hard I/O fault fired, demands the identical '
+             'notification trace / exception from the file path. Non-trivial = bytes damaged/hostile or a file path used; distinct = distinct '
+             '(label, format, path, damage kinds, fault kinds, outcome class + message skeleton per handler)',
+        assumptions=_IO_ASSUME,
+    ),
+    'C14': dict(
+        engine='iosim', level='exploration',
+        quick=dict(count=600000), thorough=dict(budget_s=540),
+        shrink_paths=[['damage'], ['rfaults'], ['wfaults'], ['consumer'], ['sol', 'sufs'], ['sol', 'x'], ['sol', 'y']],
+        rule='scenario = seeded solution written by the real mp::WriteSolFile through the fopen shim (optionally with a write fault: '
+             'what a crashed writer leaves behind) or by the own binary .sol emitter; then truncation / byte damage / one hostile field '
+             '(counts line, option count, objno line, "suffix kind n namelen tablen tablines" fields, binary record lengths); declared problem '
+             'size equal / 0 / smaller / larger; consumer script reading all / some / none of each offered vector, SetError mid-vector, '
+             'non-zero OnAMPLOptions; read faults SHORT/EIO/ZERO/fopen errors. Oracle: terminates, no sanitizer report, documented return '
+             'code with message, never offered more than declared, suffix name/table lengths as stated in the file, no vector reported '
+             'complete that the complete file contradicts (prefix rule on truncated files). Non-trivial = anything but a pristine full read',
+        assumptions=_IO_ASSUME,
+    ),
+    'C05': dict(
+        engine='iosim', level='exploration',
+        quick=dict(count=1200000), thorough=dict(budget_s=420),
+        # the option list is deliberately not shrunk: emptying it would turn any finding into the 'no options' one
+        shrink_paths=[['sol', 'sufs'], ['sol', 'x'], ['sol', 'y']],
+        rule='scenario = seeded solution (message with blank lines / CRLF / backspaces / long lines; 0..9 options incl. the vbtol form, '
+             '70% of scenarios restricted to 3..9 plain options so that the option findings do not mask everything else; primal/dual vectors '
+             'absent / partial / full with 17-digit values, subnormals, extremes, -0 and (12%) Inf/NaN; objno; solve code; int/real suffixes of '
+             'all four kinds with tables) written by the real mp::WriteSolFile and read by the real mp::ReadSOLFile with a consume-everything '
+             'recording handler; fault-free. Oracle: statement tolerances (integral < 1e15 exact, finite within 1e-15 relative, non-finite '
+             'identical or non-OK code, message line by line modulo the reserved empty line). Non-trivial = has vectors or suffixes',
+        assumptions=_IO_ASSUME,
+    ),
+    'C03': dict(
+        engine='iosim', level='exploration',
+        quick=dict(count=200000), thorough=dict(budget_s=540),
+        shrink_paths=[['model', 'cons'], ['model', 'lcons'], ['model', 'objs'], ['model', 'sufs'], ['model', 'x0'], ['model', 'd0'],
+                      ['model', 'cexprs'], ['model', 'funcs']],
+        rule='scenario = explicit model IR (>= 1 variable; every NL operator incl. iterated ones, if/implication, piecewise-linear terms, '
+             'function calls with string arguments, defined variables, complementarity, suffixes of 4 kinds int/real, initial primal/dual '
+             'values; 60% with awkward doubles: subnormals, +-DBL_MAX, 17-digit values, +-0, +-Inf) fed through the real NLW2 writer in text '
+             'AND binary, x comments on/off x bounds first/last x column sizes none/cumulative/plain, read back with the real mp::ReadNLFile '
+             '(flags 0 / READ_BOUNDS_FIRST) and the recording checker. Oracle: per-item reader history == feed history computed from the IR '
+             '(operators through an independent name<->number table), doubles bit-identical except the sign of zero; text history == binary '
+             'history. Fault-free. Non-trivial = model has constraints or objectives',
+        assumptions=_IO_ASSUME,
+    ),
+}
+
+PROPS.update(PROPS_IOSIM)
